@@ -16,14 +16,30 @@ the loop's ready queue).  That log *is* a schedule of the Lean model (one model 
 the model is run with it and must produce the same accesses in the same order, the same result
 for every loop operation, the same final reads and the same events per connection.
 
-The oracle (harness/ref/race.py) never looks at the model: after everything completed,
-GET /accessories (twice) and GET /characteristics must show the last accepted update, and every
-connection subscribed before the updates began must have it as its latest event.
+The oracle (harness/ref/race.py) never looks at the model: after everything completed (hand-offs
+drained, every armed coalescing timer expired — fired the way the loop fires a due TimerHandle,
+never by calling the flush routine directly), GET /accessories (twice) and GET /characteristics
+must show the last accepted write, and every connection that was subscribed before the worker's
+last value-changing update began and stayed subscribed must have it as its latest event.
+
+Loop-side alphabet: to_HAP (with / without value), get_characteristics, subscribe / repeated
+subscribe / unsubscribe and controller writes of the characteristic (all as real PUT /characteristics
+requests through HAPServerProtocol.data_received -> handler -> driver, by the subscriber itself or by
+another connection), running the handed-over callbacks, a direct flush, and timer expiry (also on
+an emptied queue).  Controller writes vs worker updates: a controller write that overlaps a worker
+update of the same characteristic, or finds that update's hand-off still undrained, is the shape of
+C12's known finding (the older worker value can be delivered after the newer write).  Choice made
+here: such runs are executed but neither judged nor compared with the model (counted in the outcome
+histogram); the executor never switches threads inside a controller write, and the structured
+streams place controller writes only where the worker is between updates and the queue is drained.
+The model states the same thing as the hypothesis `Serial` of C20_event.
 """
 from __future__ import annotations
 
 import asyncio
 import dis
+import heapq
+import json
 import logging
 import os
 import sys
@@ -38,9 +54,13 @@ LEAN_MODULE = "Props.C20"
 TRUSTED = [
     "Lean 4.33 kernel; axioms propext, Classical.choice, Quot.sound only (audited by #print axioms)",
     "hand-written two-thread model lean/HapModel/Race.lean of Characteristic.to_HAP / get_value / value setter / "
-    "_clear_cache / set_value / notify, Accessory.publish, AccessoryDriver.publish / async_send_event / "
-    "async_subscribe_client_topic, HAPServerProtocol.queue_event / _send_events (one characteristic, one topic, "
-    "no getter_callback, not an always-null or immediate-notify type, no concurrent controller write); tied to "
+    "_clear_cache / set_value / notify / client_update_value, Accessory.publish, AccessoryDriver.publish / "
+    "async_send_event / async_subscribe_client_topic / _notify / set_characteristics (one entry), "
+    "HAPServerProtocol.queue_event / _send_events / discard_event / discard_stale_event and the coalescing timer "
+    "(one characteristic, one topic, no getter_callback, not an always-null or immediate-notify type); a "
+    "controller write is ONE atomic model step and the event theorems assume `Serial` (no controller write "
+    "overlaps a worker update or its undrained hand-off: that shape is C12's known finding and is neither judged "
+    "nor compared here); tied to "
     "the code on every run by comparing the global order of shared-variable accesses, every operation's result, "
     "the final reads and the delivered events under identical schedules",
     "sequential consistency of CPython under the GIL: a thread switch happens only between bytecodes and each "
@@ -168,6 +188,7 @@ class Env:
             proto = HAPServerProtocol(self.loop, self.driver.http_server.connections, self.driver)
             tr = FakeTransport(("10.0.0.%d" % c, 50000 + c))
             proto.connection_made(tr)
+            proto.handler.is_encrypted = True  # a verified session (the cipher itself is C04/C05's subject)
             self.conns[c] = (proto, tr)
 
     def close(self):
@@ -278,6 +299,14 @@ class Exec:
         self.topic_key = env.topic in env.driver.topics
         self.pyhap_dir = _pyhap_dir()
         self.local = {"L": self.make_local("L"), "W": self.make_local("W")}
+        self.l_write_ids: List[int] = []  # for the loop thread's (controller) writes of _value
+        self.capture_tid = "W"
+        self.in_write = False          # a controller write is in progress: no switch, one logged access
+        self.deferred_switch = False
+        self.w_in_update = False
+        self.overlap = False           # a controller write overlapped a worker update / undrained hand-off
+        self.anomalies: List[str] = []
+        self.timeline: List[Dict[str, Any]] = []
         self.worker_error: Optional[BaseException] = None
         self.worker_outcomes: List[str] = []
         self.results: List[Any] = []
@@ -348,13 +377,14 @@ class Exec:
         if self.capture:
             self.capture = False
             v = self.env.char._value  # diagnostic read of the object just stored (identity class)
+            ids = self.write_ids if self.capture_tid == "W" else self.l_write_ids
             for i, o in enumerate(self.objects):
                 if o is v:
-                    self.write_ids.append(i)
+                    ids.append(i)
                     break
             else:
                 self.objects.append(v)
-                self.write_ids.append(len(self.objects) - 1)
+                ids.append(len(self.objects) - 1)
         if tid == "L":
             k = self.env.topic in self.env.driver.topics
             if k != self.topic_key:
@@ -371,9 +401,12 @@ class Exec:
             return
         if tid == "W" and kind == "R":
             return  # the worker reading what only the worker writes (or what it cleared) is no conflict
+        if tid == "L" and self.in_write and not (kind == "W" and var == "value"):
+            return  # a controller write is one atomic model step, labelled by its assignment
         self.log.append(f"{tid}:{kind}:{var}")
         if kind == "W" and var == "value":
             self.capture = True
+            self.capture_tid = tid
 
     # -- token passing ---------------------------------------------------------------------------
     def yield_point(self, tid: str, frame):
@@ -381,16 +414,25 @@ class Exec:
             return
         k = self.yields[tid]
         self.yields[tid] = k + 1
-        self.yield_info[tid].append(
-            (frame.f_code.co_name, frame.f_lineno, frame.f_locals.get("self") is self.env.char, len(self.log))
-        )
+        if frame is None:
+            self.yield_info[tid].append(("<between>", 0, False, len(self.log)))
+        else:
+            self.yield_info[tid].append(
+                (frame.f_code.co_name, frame.f_lineno, frame.f_locals.get("self") is self.env.char, len(self.log))
+            )
         if k in self.switch[tid]:
-            other = "W" if tid == "L" else "L"
-            with self.cv:
-                if self.runnable[other]:
-                    self.turn = other
-                    self.cv.notify_all()
-                    self.wait_turn_locked(tid)
+            if tid == "L" and self.in_write:
+                self.deferred_switch = True  # taken right after the controller write
+                return
+            self.handover(tid)
+
+    def handover(self, tid: str):
+        other = "W" if tid == "L" else "L"
+        with self.cv:
+            if self.runnable[other]:
+                self.turn = other
+                self.cv.notify_all()
+                self.wait_turn_locked(tid)
 
     def wait_turn_locked(self, tid: str):
         while self.turn != tid:
@@ -401,12 +443,19 @@ class Exec:
         try:
             with self.cv:
                 self.wait_turn_locked("W")
-            for u in updates:
+            for j, u in enumerate(updates):
+                self.yield_point("W", None)  # between two updates
+                self.timeline.append({"t": "update", "j": j, "phase": "start"})
+                self.w_in_update = True
                 try:
                     self.env.char.set_value(u)
                     self.worker_outcomes.append("ok")
                 except ValueError:
                     self.worker_outcomes.append("ValueError")
+                finally:
+                    self.sync("W")
+                    self.w_in_update = False
+                    self.timeline.append({"t": "update", "j": j, "phase": "end"})
         except BaseException as ex:  # noqa: BLE001
             self.worker_error = ex
         finally:
@@ -439,9 +488,30 @@ class Exec:
             ent = rep["characteristics"][0]
             self.results.append({"value": payload(env.kind, ent.get("value"))})
         elif name == "sub":
-            env.driver.async_subscribe_client_topic(env.conns[op[1]][1].peer, env.topic, True)
+            self.put(op[1], {"ev": True})
         elif name == "unsub":
-            env.driver.async_subscribe_client_topic(env.conns[op[1]][1].peer, env.topic, False)
+            self.put(op[1], {"ev": False})
+        elif name == "write":
+            if self.w_in_update or env.loop._ready:
+                self.overlap = True
+            self.in_write = True
+            try:
+                self.put(op[1], {"value": op[2]})
+            finally:
+                self.sync("L")
+                self.in_write = False
+        elif name == "fire":
+            # the coalescing timer expires: what the loop does with a due TimerHandle
+            proto = env.conns[op[1]][0]
+            h = proto._event_timer
+            if h is not None and getattr(h, "_scheduled", False) and not h.cancelled():
+                try:
+                    env.loop._scheduled.remove(h)
+                    heapq.heapify(env.loop._scheduled)
+                except ValueError:
+                    pass
+                h._scheduled = False
+                h._run()
         elif name == "drain":
             ready = env.loop._ready
             while True:
@@ -457,6 +527,34 @@ class Exec:
             raise ValueError(f"unknown op {op}")
         self.sync("L")
 
+    def put(self, c: int, fields: Dict[str, Any]):
+        """A real PUT /characteristics on connection c (plaintext framing, verified session)."""
+        env = self.env
+        proto, tr = env.conns[c]
+        body = json.dumps({"characteristics": [dict({"aid": env.aid, "iid": env.iid}, **fields)]}).encode()
+        req = (
+            b"PUT /characteristics HTTP/1.1\r\nHost: hap\r\nContent-Type: application/hap+json\r\n"
+            b"Content-Length: %d\r\n\r\n" % len(body)
+        ) + body
+        n = len(tr.writes)
+        proto.data_received(req)
+        resp = b"".join(tr.writes[n:])
+        if not resp.startswith(b"HTTP/1.1 204"):
+            self.anomalies.append(f"PUT {fields} on connection {c} answered {resp[:40]!r}")
+
+    def timed_op(self, i: int, op: List[Any]):
+        ev = {"t": op[0], "i": i}
+        if len(op) > 1:
+            ev["c"] = op[1]
+        if op[0] == "write":
+            ev["value"] = op[2]
+        self.timeline.append(dict(ev, phase="start"))
+        self.do_op(op)
+        self.timeline.append(dict(ev, phase="end"))
+        if self.deferred_switch and not self.in_write:
+            self.deferred_switch = False
+            self.handover("L")
+
     def run(self, prologue, loop_ops, updates, epilogue):
         """Prologue (solo), the scheduled section (both threads), epilogue (solo)."""
         global _CUR
@@ -464,8 +562,8 @@ class Exec:
         tracing_on()
         _CUR = self
         try:
-            for op in prologue:
-                self.do_op(op)
+            for i, op in enumerate(prologue):
+                self.timed_op(i, op)
             self.n_prologue_log = len(self.log)
             wt = _worker()
             with self.cv:
@@ -476,8 +574,8 @@ class Exec:
             try:
                 with self.cv:
                     self.wait_turn_locked("L")
-                for op in loop_ops:
-                    self.do_op(op)
+                for i, op in enumerate(loop_ops):
+                    self.timed_op(len(prologue) + i, op)
             finally:
                 with self.cv:
                     self.runnable["L"] = False
@@ -489,8 +587,8 @@ class Exec:
             if self.worker_error is not None:
                 raise self.worker_error
             self.n_scheduled_log = len(self.log)
-            for op in epilogue:
-                self.do_op(op)
+            for i, op in enumerate(epilogue):
+                self.timed_op(len(prologue) + len(loop_ops) + i, op)
         finally:
             _CUR = None
             if not keep:
@@ -502,7 +600,7 @@ class Exec:
 
 def epilogue_for(conns: List[int]) -> List[List[Any]]:
     ep: List[List[Any]] = [["drain"]]
-    ep += [["flush", c] for c in conns]
+    ep += [["fire", c] for c in conns]  # let every armed coalescing timer expire
     ep += [["toHAP"], ["toHAP"], ["getValue"]]
     return ep
 
@@ -520,11 +618,12 @@ def _log_complete(ex: "Exec", case: Dict[str, Any], epi, valid) -> bool:
     n = lambda name: sum(1 for o in ops if o[0] == name)  # noqa: E731
     lg = ex.log
     return (
-        lg.count("W:W:value") == sum(1 for v in valid if v)
-        and lg.count("W:W:cacheV") == lg.count("W:W:value") == lg.count("W:W:cache")
+        lg.count("W:W:value") >= sum(1 for v in valid if v)
+        and lg.count("W:W:cacheV") >= sum(1 for v in valid if v)
         and lg.count("L:R:cacheV") >= n("toHAP")
         and lg.count("L:R:cache") >= n("toHAPnv")
         and lg.count("L:R:value") >= n("getValue")
+        and lg.count("L:W:value") >= n("write")
     )
 
 
@@ -533,7 +632,8 @@ _WARM_CASES = [
     {"char": k, "init": KINDS[k]["good"][0], "conns": [1, 2],
      "prologue": [["sub", 1], ["toHAPnv"]],
      "loop": [["toHAP"], ["toHAP"], ["toHAPnv"], ["getValue"], ["sub", 2], ["unsub", 2], ["unsub", 1], ["sub", 1],
-              ["drain"], ["flush", 1]],
+              ["drain"], ["flush", 1], ["drain"], ["write", 2, KINDS[k]["good"][0]], ["fire", 1], ["sub", 1],
+              ["write", 1, KINDS[k]["good"][1]], ["fire", 2]],
      "worker": [KINDS[k]["good"][1]], "start": "L", "switchL": [60], "switchW": [5], "gran": g}
     for k in ("int", "float", "bool", "enum") for g in ("line", "opcode")
 ]
@@ -589,23 +689,31 @@ def _run_case_once(case: Dict[str, Any]) -> Dict[str, Any]:
     ep_results = ex.results[-3:]
     database_reads = [None if r == "none" else r["rep"] for r in ep_results[:2]]
     direct_reads = [ep_results[2]["value"]]
-    steady = [
-        c for c in conns
-        if ["sub", c] in case["prologue"]
-        and ["unsub", c] not in case["prologue"]
-        and ["unsub", c] not in case["loop"]
-    ]
-    ups = [(payload(kind, u) if ok else None, ok) for u, ok in zip(case["worker"], valid)]
     ev_payload = {c: [payload(kind, v) for v in evs] for c, evs in events.items()}
-    verdicts = ref.judge(payload(kind, case["init"]), ups, database_reads, direct_reads, ev_payload, steady)
+    timeline = []
+    for ev in ex.timeline:
+        ev = dict(ev)
+        if ev["t"] == "update":
+            ev["valid"] = valid[ev["j"]]
+            ev["value"] = payload(kind, case["worker"][ev["j"]]) if ev["valid"] else None
+        elif ev["t"] == "write":
+            ev["value"] = payload(kind, ev["value"])
+        timeline.append(ev)
     outcome_ok = [("ok" if ok else "ValueError") for ok in valid]
-    if ex.worker_outcomes != outcome_ok:
-        verdicts.append(
-            (
-                "C20:update-outcome",
-                f"set_value outcomes {ex.worker_outcomes} differ from the expected {outcome_ok} for {case['worker']!r}",
+    if ex.overlap:
+        # a controller write of this characteristic overlapped a worker update or its undrained hand-off:
+        # the known finding of C12 (older worker value delivered after the newer write) lives here; left to C12
+        verdicts = []
+    else:
+        verdicts = ref.judge_timeline(payload(kind, case["init"]), timeline, database_reads, direct_reads, ev_payload)
+        if ex.worker_outcomes != outcome_ok:
+            verdicts.append(
+                (
+                    "C20:update-outcome",
+                    f"set_value outcomes {ex.worker_outcomes} differ from the expected {outcome_ok} for "
+                    f"{case['worker']!r}",
+                )
             )
-        )
 
     # ---- model line ------------------------------------------------------------------------------
     wid = iter(ex.write_ids)
@@ -615,11 +723,18 @@ def _run_case_once(case: Dict[str, Any]) -> Dict[str, Any]:
             wups.append([next(wid, 0), payload(kind, u), True])
         else:
             wups.append([0, 0, False])
+    lid = iter(ex.l_write_ids)
+    lops = []
+    for op in case["prologue"] + case["loop"] + epi:
+        if op[0] == "write":
+            lops.append(["write", op[1], next(lid, 0), payload(kind, op[2])])
+        else:
+            lops.append(op)
     line = {
         "layer": "race", "fix": True,
         "value": [0, payload(kind, case["init"])], "cacheV": None, "cache": False,
         "subs": [], "conns": conns,
-        "lops": case["prologue"] + case["loop"] + epi,
+        "lops": lops,
         "wups": wups,
         "sched": "".join(a[0] for a in ex.log),
     }
@@ -628,13 +743,15 @@ def _run_case_once(case: Dict[str, Any]) -> Dict[str, Any]:
         "results": ex.results,
         "delivered": [ev_payload[c] for c in conns],
     }
+    if ex.anomalies:
+        impl_obs["anomalies"] = ex.anomalies
     sched_part = ex.log[ex.n_prologue_log:ex.n_scheduled_log]
     tids = [a[0] for a in sched_part]
     interleaved = "W" in tids and "L" in tids and tids != sorted(tids) and tids != sorted(tids, reverse=True)
     return {
         "line": line, "impl": impl_obs, "verdicts": verdicts, "interleaved": interleaved,
         "yields": dict(ex.yields), "yield_info": ex.yield_info, "sched_part": sched_part, "scale": scale,
-        "n_ep": n_ep,
+        "n_ep": n_ep, "overlap": ex.overlap,
     }
 
 
@@ -678,6 +795,26 @@ def scenarios(kind: str) -> List[Tuple[str, Dict[str, Any]]]:
     return S
 
 
+def phased_scenarios(kind: str) -> List[Tuple[str, Dict[str, Any]]]:
+    """Worker update u1 completes; the loop drains it (entry queued, 0.5 s timer armed) and then a
+    controller write / unsubscription / repeated subscription / timer expiry happens; a second
+    worker update u2 lands at every point of that program (or never)."""
+    g = KINDS[kind]["good"]
+    a, u1, u2, x = g[-2], g[-1], g[0], g[2 % len(g)]
+    both = [["sub", 1], ["sub", 2]]
+    P = {
+        "write-self": [["drain"], ["write", 1, x], ["fire", 1], ["getValue"]],
+        "write-other": [["drain"], ["write", 2, x], ["fire", 1], ["fire", 2], ["toHAP"]],
+        "write-self-same": [["drain"], ["write", 1, u1], ["fire", 1]],
+        "unsub-resub": [["drain"], ["unsub", 1], ["sub", 1], ["fire", 1], ["toHAP"]],
+        "resub": [["drain"], ["sub", 1], ["fire", 1], ["toHAP"]],
+        "fire-twice": [["drain"], ["fire", 1], ["fire", 1]],
+        "flush-then-fire": [["drain"], ["flush", 1], ["fire", 1]],
+        "unsub-other": [["drain"], ["unsub", 2], ["fire", 2], ["fire", 1]],
+    }
+    return [(n, base_case(kind, a, [1, 2], both, prog, [u1, u2], start="W")) for n, prog in P.items()]
+
+
 def solo_counts(case: Dict[str, Any]) -> Tuple[int, int, Dict[str, Any]]:
     """Yield points of each thread when the loop program runs first, then the worker."""
     c = dict(case, switchL=[], switchW=[], start="L")
@@ -715,6 +852,17 @@ def gen_cases(ctx: Ctx) -> List[Tuple[str, Dict[str, Any]]]:
                 for i, j in pairs:
                     cases.append((f"double/{name}", dict(two, switchL=sorted({i, j}) if i != j else [i],
                                                          switchW=[first_len] if i != j else [])))
+    # (P) phased programs: update, then queue maintenance on the loop, second update at every point
+    for kind in kinds_sweep:
+        for name, sc in phased_scenarios(kind):
+            solo = run_case(sc)
+            b2 = _first_update_yields(solo)
+            sc2 = dict(sc, switchW=[b2])
+            solo2 = run_case(sc2)
+            for k in sweep_points(solo2["yield_info"]["L"]):
+                cases.append((f"phased/{name}", dict(sc2, switchL=[k])))
+            # ... and with the first update only
+            cases.append((f"phased1/{name}", dict(sc, worker=sc["worker"][:1])))
     # (D) bytecode-granularity single preemption of to_HAP / set_value
     for kind in (["int"] if ctx.quick else kinds_sweep):
         for name, sc in scenarios(kind):
@@ -739,22 +887,15 @@ _DRIVER_FUNCS = {
     "publish",
     "get_characteristics", "async_subscribe_client_topic", "async_send_event", "push_event", "queue_event",
     "_send_events", "_event_queue_with_active_subscriptions",
+    "set_characteristics", "_notify", "client_update_value", "discard_stale_event", "discard_event",
 }
 
 
 def _first_update_yields(solo: Dict[str, Any]) -> int:
-    """Index of the worker's first yield point that belongs to its second set_value call."""
+    """Index of the worker's yield point between its first and its second update."""
     info = solo["yield_info"]["W"]
-    lines = [inf[1] for inf in info if inf[0] == "set_value"]
-    if not lines:
-        return 0
-    first, seen = min(lines), 0
-    for i, inf in enumerate(info):
-        if inf[0] == "set_value" and inf[1] == first:
-            seen += 1
-            if seen == 2:
-                return i
-    return len(info)
+    btw = [i for i, inf in enumerate(info) if inf[0] == "<between>"]
+    return btw[1] if len(btw) > 1 else len(info)
 
 
 def sweep_points(info: List[Tuple[str, int, bool, int]]) -> List[int]:
@@ -799,10 +940,14 @@ def random_case(rng) -> Dict[str, Any]:
             ops.append(["sub", rng.choice(conns)])
         elif r < 0.78:
             ops.append(["unsub", rng.choice(conns)])
-        elif r < 0.9:
+        elif r < 0.86:
             ops.append(["drain"])
-        else:
+        elif r < 0.9:
             ops.append(["flush", rng.choice(conns)])
+        elif r < 0.96:
+            ops.append(["fire", rng.choice(conns)])
+        else:
+            ops += [["drain"], ["write", rng.choice(conns), rng.choice(spec["good"])]]
     worker: List[Any] = []
     cur = init
     for _ in range(rng.choice([1, 1, 2, 2, 3])):
@@ -913,6 +1058,10 @@ def _evaluate(ctx: Ctx, cases: List[Tuple[str, Dict[str, Any]]], correspond: boo
             pass
         if r["verdicts"]:
             st.hit("outcome", "oracle:" + r["verdicts"][0][0])
+        if r.get("overlap"):
+            # outside the model's Serial assumption and outside C20's oracle (C12's known finding)
+            st.hit("outcome", "controller-write-overlaps-worker-update(left to C12, not judged)")
+            continue
         lines.append(r["line"])
         impls.append(r["impl"])
         metas.append((stream, case))
@@ -947,15 +1096,20 @@ def run(ctx: Ctx):
         "case = (characteristic kind, prologue, loop program, worker updates, schedule). Streams: exhaustive single "
         "preemption of every loop operation scenario by a whole set_value at every line (single/), the mirror image "
         "(reverse/), double preemption with two updates (double/), the same at bytecode granularity "
-        "(single-opcode/, reverse-opcode/), random programs under random schedules (random). A case is non-trivial "
+        "(single-opcode/, reverse-opcode/), phased programs (phased/: a first update is drained into the "
+        "connection's queue with its timer armed, then controller write by the subscriber / by another connection, "
+        "unsubscribe+resubscribe, repeated subscribe, timer expiry on a full or emptied queue, direct flush; a "
+        "second update lands at every point of that program; phased1/: no second update), random programs under "
+        "random schedules (random). A case is non-trivial "
         "if the shared-variable accesses of the two threads actually interleave (neither thread's accesses all "
         "precede the other's); distinct by the global access order."
     )
     ctx.assumptions += [
         "preemption granularity: source lines (and bytecodes in the *-opcode streams) of pyhap code; a thread switch "
         "inside one C-level operation and free-threaded builds are not covered",
-        "one characteristic without getter_callback, not always-null, not immediate-notify; updates only from the "
-        "worker thread (no concurrent controller write)",
+        "one characteristic without getter_callback, not always-null, not immediate-notify",
+        "controller writes of the same characteristic are serialised against worker updates (no overlap with an "
+        "update or its undrained hand-off); overlapping runs are left to C12 (known finding) and only counted",
     ]
     tracing_on()
     try:
